@@ -299,6 +299,20 @@ Definition settle (st : state) : state := settle_fuel (measure st) st.
 Definition hstep (st : state) (l : label) : state := settle (step st l).
 Definition hrun (script : list label) : state := fold_left hstep script (settle init).
 
+(* a harness script with HELD steps: [holds] lists the (0-based) positions of the script after
+   which the code is NOT left to settle (the harness holds the servent mutex, so no clean-up
+   can run) before the next environment action is issued.  This is how the schedule "the timer
+   has won the select, the late reply takes the call out of pending before the clean-up" is
+   forced in the implementation.  With [holds = []] this is [hrun]. *)
+Fixpoint hrunh_from (holds : list N) (i : N) (st : state) (script : list label) : state :=
+  match script with
+  | [] => st
+  | l :: r => hrunh_from holds (N.succ i)
+                (if memN i holds then step st l else settle (step st l)) r
+  end.
+Definition hrunh (holds : list N) (script : list label) : state :=
+  hrunh_from holds 0 (settle init) script.
+
 (* ---------- decidable equalities for observations ---------- *)
 Definition entry_eqb (a b : entry) : bool :=
   match a, b with
@@ -341,13 +355,27 @@ Definition n_sort (l : list N) : list N := fold_right n_insert [] l.
               command's callback channel, the last such value).
    o_sends  : sorted (id, target) of every SendFunc invocation.
    o_pending: number of keys left in Servent.pending at the end.
-   o_leaks  : ProcessResponse goroutines still blocked on Done at the end. *)
+   o_leaks  : ProcessResponse goroutines still blocked on Done at the end.
+   i_level  : 0 = the script is played through CommandQueue.Enqueue; 1 = the harness plays
+              commit itself (one goroutine per target calling the real Servent.RunCommand, one
+              command at a time, same consolidation), so that a RunCommand returning neither a
+              response nor an error is observed instead of crashing the process.
+   i_holds  : positions of held steps (see [hrunh]).
+   o_when   : per LEnqueue of the script: 1-based number of the script step after which the
+              command was first seen completed (0 = not during the script).
+   o_nils   : RunCommand invocations that returned (nil, nil) (level 1 only).
+   o_crash  : 1 = the process running the core died (panic) while playing this script. *)
 Record c12_case := mkCase {
   i_script : list label;
+  i_level : N;
+  i_holds : list N;
   o_outs : list (N * result);
   o_sends : list (N * N);
   o_pending : N;
-  o_leaks : N
+  o_leaks : N;
+  o_when : list N;
+  o_nils : N;
+  o_crash : N
 }.
 
 Definition enq_cmds (s : list label) : list command :=
@@ -364,12 +392,31 @@ Definition model_sends (st : state) : list (N * N) :=
 
 Definition nr_eqb (a b : N * result) : bool := (fst a =? fst b) && result_eqb (snd a) (snd b).
 
+(* 1-based number of the script step after which command c is first seen completed (its value
+   has been handed to the callback); 0 = not during the script *)
+Fixpoint seen_from (holds : list N) (i : N) (st : state) (script : list label) (c : command) : N :=
+  match script with
+  | [] => 0
+  | l :: r =>
+    let st2 := if memN i holds then step st l else settle (step st l) in
+    (* timers run by themselves: within a batch of consecutive time-out steps the harness only
+       looks after the last one *)
+    let skip := match l, r with LTimeout _ _, LTimeout _ _ :: _ => true | _, _ => false end in
+    if negb skip && existsb (fun cr => cmd_eqb (fst cr) c) (s_out st2) then N.succ i
+    else seen_from holds (N.succ i) st2 r c
+  end.
+
+Definition model_when (holds : list N) (script : list label) : list N :=
+  map (seen_from holds 0 (settle init) script) (enq_cmds script).
+
 Definition corr12 (c : c12_case) : bool :=
-  let st := hrun (i_script c) in
+  let st := hrunh (i_holds c) (i_script c) in
   list_eqb nr_eqb (model_outs (i_script c) st) (o_outs c) &&
   list_eqb nn_eqb (model_sends st) (o_sends c) &&
   (Nlen (s_pending st) =? o_pending c) &&
-  (Nlen (s_offers st) =? o_leaks c).
+  (Nlen (s_offers st) =? o_leaks c) &&
+  list_eqb N.eqb (model_when (i_holds c) (i_script c)) (o_when c) &&
+  (o_nils c =? 0) && (o_crash c =? 0).
 
 (* ---------- the property evaluated on what the implementation did ---------- *)
 (* Uses only the script (what the environment did) and the observation; never [step]. *)
@@ -451,14 +498,40 @@ Fixpoint mon_cmds (s : list label) (cs : list command) (os : list (N * result)) 
   | _, _ => 1
   end.
 
+(* completion must be justified: by the time command c is seen completed, every one of its
+   targets has answered it (a ProcessResponse call with c's id from that target), or SendFunc
+   failed for it, or its timer was allowed to fire.  Otherwise something else completed it
+   (e.g. a completion signal left over from another command). *)
+Definition justifies (c : command) (t : N) (l : label) : bool :=
+  match l with LDeliver i u _ => (i =? c_id c) && (u =? t) | _ => false end
+  || is_senderr_of c t l || is_timeout_of c t l.
+Definition mon_when (s : list label) (c : command) (k : N) : N :=
+  if k =? 0 then 0
+  else if nodupb N.eqb (c_targets c) then
+    let pre := after_enqueue c (firstn (N.to_nat k) s) in
+    if forallb (fun t => existsb (justifies c t) pre) (c_targets c) then 0 else 10
+  else 0.
+Fixpoint mon_whens (s : list label) (cs : list command) (ws : list N) : N :=
+  match cs, ws with
+  | c :: cs', k :: ws' => let x := mon_when s c k in if x =? 0 then mon_whens s cs' ws' else x
+  | _, _ => 0
+  end.
+
 Definition expected_sends (s : list label) : list (N * N) :=
   nn_sort (flat_map (fun c => map (fun t => (c_id c, t)) (c_targets c)) (enq_cmds s)).
 
 (* codes: 1 never completed, 2 completed more than once, 3 result does not hold exactly the
    command's targets, 4 reply that is not an own reply, 5 send error reported without a send
    failure, 6 time-out reported although the timer was never allowed to fire (reply lost),
-   7 unclassifiable entry, 8 SendFunc calls differ from one per target, 9 pending not empty *)
+   7 unclassifiable entry, 8 SendFunc calls differ from one per target, 9 pending not empty,
+   10 completed before its own targets answered / failed / timed out, 11 a RunCommand returned
+   neither a response nor an error, 12 the core crashed *)
 Definition mon12 (c : c12_case) : N :=
+  if negb (o_crash c =? 0) then 12
+  else if negb (o_nils c =? 0) then 11
+  else
+  let y := mon_whens (i_script c) (enq_cmds (i_script c)) (o_when c) in
+  if negb (y =? 0) then y else
   let x := mon_cmds (i_script c) (enq_cmds (i_script c)) (o_outs c) in
   if negb (x =? 0) then x
   else if negb (list_eqb nn_eqb (expected_sends (i_script c)) (o_sends c)) then 8
@@ -477,29 +550,39 @@ Definition call_in_send (st : state) (c : N) : bool :=
   | None => false
   end.
 
+Definition call_timed_out (st : state) (c : N) : bool :=
+  match s_cur st with
+  | Some k => existsb (fun ws => match ws with WTimedOut d => c =? d | _ => false end) (k_workers k)
+  | None => false
+  end.
+
 Definition tag_step (st : state) (l : label) : N :=
   match l with
   | LSendErr _ _ => 1
   | LTimeout _ _ => 2
   | LDeliver id t p =>
     match pend_get (id, t) (s_pending st) with
-    | Some c => if call_in_send st c then 4 else 8
+    | Some c => if call_in_send st c then 4 else if call_timed_out st c then 256 else 8
     | None => 16
     end
   | _ => 0
   end.
-Fixpoint tag_run (st : state) (s : list label) (acc : N) : N :=
+Fixpoint tag_run (holds : list N) (i : N) (st : state) (s : list label) (acc : N) : N :=
   match s with
   | [] => acc
-  | l :: r => tag_run (hstep st l) r (N.lor acc (tag_step st l))
+  | l :: r => tag_run holds (N.succ i) (if memN i holds then step st l else hstep st l) r
+                      (N.lor acc (tag_step st l))
   end.
+(* 256 = a reply took the call of a worker whose timer had already won the select (forced by a
+   held step), 512 = played at the servent level *)
 Definition tag12 (c : c12_case) : N :=
   let s := i_script c in
   let cs := enq_cmds s in
-  N.lor (tag_run (settle init) s 0)
+  N.lor (tag_run (i_holds c) 0 (settle init) s 0)
   (N.lor (if (1 <? Nlen cs) then 32 else 0)
-  (N.lor (if negb (Nlen (s_offers (hrun s)) =? 0) then 64 else 0)
+  (N.lor (if negb (Nlen (s_offers (hrunh (i_holds c) s)) =? 0) then 64 else 0)
+  (N.lor (if i_level c =? 0 then 0 else 512)
          (if forallb (fun c => nodupb N.eqb (c_targets c) && negb (Nlen (c_targets c) =? 0)) cs
-          then 0 else 128))).
+          then 0 else 128)))).
 
 Definition report12 := report corr12 mon12 tag12.
